@@ -3,12 +3,15 @@
 package main
 
 import (
+	"encoding/hex"
 	"fmt"
 	"net"
 	"net/http"
 	"net/http/httptest"
+	"sort"
 	"strconv"
 	"strings"
+	"sync"
 
 	"rivaas.dev/router"
 	"verif/harness/hx"
@@ -31,6 +34,11 @@ type reqT struct {
 type caseT struct {
 	C cfgT
 	Q reqT
+	// Prev: the request state of an EARLIER ClientIP() call on the same context; the request was
+	// then changed in place to Q (RemoteAddr, headers) and ClientIP() called again.
+	Prev *reqT `json:",omitempty"`
+	// Conc: the other requests served concurrently on the same router while Q was served.
+	Conc []reqT `json:",omitempty"`
 }
 
 var cidrPool = [][]string{
@@ -208,18 +216,7 @@ func splitTrim(s string) []string {
 
 // observe runs the real code; ok=false means ClientIP panicked.
 func observe(c cfgT, q reqT) (res string, ok bool) {
-	opts := []router.TrustedProxyOption{router.WithProxies(c.Cidrs...)}
-	if c.Headers != nil {
-		hs := make([]router.RealIPHeader, len(c.Headers))
-		for i, h := range c.Headers {
-			hs[i] = router.RealIPHeader(h)
-		}
-		opts = append(opts, router.WithProxyHeaders(hs...))
-	}
-	if c.MaxHops != 0 {
-		opts = append(opts, router.WithProxyMaxHops(c.MaxHops))
-	}
-	r := router.MustNew(router.WithTrustedProxies(opts...))
+	r := newRouter(c)
 	ok = true
 	r.GET("/ip", func(ctx *router.Context) {
 		defer func() {
@@ -239,6 +236,14 @@ func observe(c cfgT, q reqT) (res string, ok bool) {
 }
 
 func emit(id string, c cfgT, q reqT, st *hx.Stats) string {
+	res, ok := observe(c, q)
+	return emitObs(id, caseT{C: c, Q: q}, res, ok, st)
+}
+
+// emitObs renders the case line of request k.Q under configuration k.C with the given observation
+// (however it was obtained: single call, second call after an in-place change, concurrent batch).
+func emitObs(id string, k caseT, res string, ok bool, st *hx.Stats) string {
+	c, q := k.C, k.Q
 	c.nets = nil
 	for _, s := range c.Cidrs {
 		_, n, err := net.ParseCIDR(s)
@@ -305,7 +310,6 @@ func emit(id string, c cfgT, q reqT, st *hx.Stats) string {
 			l.Bool(false)
 		}
 	}
-	res, ok := observe(c, q)
 	in := l.String()
 	l.Sep()
 	if ok {
@@ -325,7 +329,118 @@ func emit(id string, c cfgT, q reqT, st *hx.Stats) string {
 		}
 		st.Count("maxhops_" + strconv.Itoa(mh))
 	}
-	return l.String() + hx.Comment(caseT{c, q})
+	if st != nil && k.Prev != nil {
+		st.Count("second_call_after_in_place_change")
+	}
+	if st != nil && k.Conc != nil {
+		st.Count("served_concurrently")
+	}
+	return l.String() + hx.Comment(k)
+}
+
+func newRouter(c cfgT) *router.Router {
+	opts := []router.TrustedProxyOption{router.WithProxies(c.Cidrs...)}
+	if c.Headers != nil {
+		hs := make([]router.RealIPHeader, len(c.Headers))
+		for i, h := range c.Headers {
+			hs[i] = router.RealIPHeader(h)
+		}
+		opts = append(opts, router.WithProxyHeaders(hs...))
+	}
+	if c.MaxHops != 0 {
+		opts = append(opts, router.WithProxyMaxHops(c.MaxHops))
+	}
+	return router.MustNew(router.WithTrustedProxies(opts...))
+}
+
+func applyReq(req *http.Request, q reqT) {
+	req.RemoteAddr = q.Remote
+	for _, h := range hdrNames {
+		req.Header.Del(h)
+	}
+	for k, v := range q.Hdr {
+		req.Header.Set(k, v)
+	}
+}
+
+// observeTwice: a middleware calls ClientIP() on request state q1, the request is then changed IN PLACE
+// to q2 (what a real-ip or proxy-protocol middleware does), and the handler calls ClientIP() again.
+// ClientIP() is a function of the current request: the second answer is judged as an ordinary case of q2.
+func observeTwice(c cfgT, q1, q2 reqT) (res1, res2 string, ok bool) {
+	r := newRouter(c)
+	ok = true
+	r.Use(func(ctx *router.Context) {
+		defer func() {
+			if p := recover(); p != nil {
+				ok = false
+			}
+		}()
+		res1 = ctx.ClientIP()
+		applyReq(ctx.Request, q2)
+		ctx.Next()
+	})
+	r.GET("/ip", func(ctx *router.Context) {
+		defer func() {
+			if p := recover(); p != nil {
+				ok = false
+			}
+		}()
+		res2 = ctx.ClientIP()
+	})
+	req := httptest.NewRequest(http.MethodGet, "/ip", nil)
+	applyReq(req, q1)
+	r.ServeHTTP(httptest.NewRecorder(), req)
+	return
+}
+
+// observeConcurrent serves the requests qs on ONE router from several goroutines, many rounds, and
+// returns for every request the set of distinct answers it got ("\x00P" = panic). The property is per
+// request, so every (request, answer) pair is judged as an ordinary case — sound for every interleaving.
+func observeConcurrent(c cfgT, qs []reqT, rounds int) []map[string]bool {
+	r := newRouter(c)
+	r.GET("/ip", func(ctx *router.Context) {
+		defer func() {
+			if p := recover(); p != nil {
+				ctx.Response.Header().Set("X-Panic", "1")
+			}
+		}()
+		ip := ctx.ClientIP()
+		ctx.Response.Header().Set("X-Res", hex.EncodeToString([]byte(ip)))
+	})
+	out := make([]map[string]bool, len(qs))
+	var mu sync.Mutex
+	var wg sync.WaitGroup
+	for i := range qs {
+		out[i] = map[string]bool{}
+		wg.Add(1)
+		go func(i int) {
+			defer wg.Done()
+			seen := map[string]bool{}
+			for n := 0; n < rounds; n++ {
+				req := httptest.NewRequest(http.MethodGet, "/ip", nil)
+				applyReq(req, qs[i])
+				rec := httptest.NewRecorder()
+				func() {
+					defer func() {
+						if p := recover(); p != nil {
+							seen["\x00P"] = true
+						}
+					}()
+					r.ServeHTTP(rec, req)
+				}()
+				if rec.Header().Get("X-Panic") != "" {
+					seen["\x00P"] = true
+				} else if b, err := hex.DecodeString(rec.Header().Get("X-Res")); err == nil {
+					seen[string(b)] = true
+				}
+			}
+			mu.Lock()
+			out[i] = seen
+			mu.Unlock()
+		}(i)
+	}
+	wg.Wait()
+	return out
 }
 
 func main() {
@@ -353,6 +468,56 @@ func main() {
 			c, q := genCase(r)
 			fmt.Fprintln(w, emit(fmt.Sprintf("c18-%d-%d", a.Seed, i), c, q, st))
 		}
+		// two calls on one context with the request changed in place in between
+		for i := 0; i < a.N/10+4; i++ {
+			c, q1 := genCase(r)
+			_, q2 := genCase(r)
+			if i < 2 { // fixed shape: trusted peer with a forged chain, then the peer becomes untrusted
+				c = cfgT{Cidrs: []string{"10.0.0.0/8"}, MaxHops: 2}
+				q1 = reqT{"10.0.0.1:1234", map[string]string{"X-Forwarded-For": "6.6.6.6"}}
+				q2 = reqT{"9.9.9.9:1234", map[string]string{"X-Forwarded-For": "6.6.6.6"}}
+			}
+			res1, res2, ok := observeTwice(c, q1, q2)
+			id := fmt.Sprintf("c18-%d-t%d", a.Seed, i)
+			fmt.Fprintln(w, emitObs(id+"a", caseT{C: c, Q: q1}, res1, ok, st))
+			fmt.Fprintln(w, emitObs(id+"b", caseT{C: c, Q: q2, Prev: &q1}, res2, ok, st))
+		}
+		// concurrent requests with different chains on one router
+		batches, rounds := 6, 300
+		if a.Tier == "thorough" {
+			batches, rounds = 40, 1500
+		}
+		for bi := 0; bi < batches; bi++ {
+			c, _ := genCase(r)
+			qs := make([]reqT, 8)
+			for i := range qs {
+				_, qs[i] = genCase(r)
+				// long, distinct chains from a trusted peer make a shared scratch buffer visible
+				qs[i].Remote = hx.Pick(r, trustedIPs) + ":1"
+				n := r.Range(3, 12)
+				parts := make([]string, n)
+				for j := range parts {
+					parts[j] = fmt.Sprintf("%d.%d.%d.%d", 20+i, r.Intn(250), r.Intn(250), 1+r.Intn(250))
+				}
+				qs[i].Hdr["X-Forwarded-For"] = strings.Join(parts, hx.Pick(r, []string{",", ", ", " , "}))
+			}
+			if bi%2 == 0 {
+				c = cfgT{Cidrs: []string{"10.0.0.0/8", "127.0.0.0/8", "192.168.0.0/16", "::1/128", "fd00::/8", "2001:db8::/32"}, MaxHops: r.Range(1, 5)}
+			}
+			res := observeConcurrent(c, qs, rounds)
+			for i, set := range res {
+				keys := make([]string, 0, len(set))
+				for k := range set {
+					keys = append(keys, k)
+				}
+				sort.Strings(keys)
+				for j, k := range keys {
+					others := append(append([]reqT(nil), qs[:i]...), qs[i+1:]...)
+					id := fmt.Sprintf("c18-%d-c%d-%d-%d", a.Seed, bi, i, j)
+					fmt.Fprintln(w, emitObs(id, caseT{C: c, Q: qs[i], Conc: others}, k, k != "\x00P", st))
+				}
+			}
+		}
 		st.Emit(w)
 	case "replay":
 		for _, line := range hx.StdinLines() {
@@ -362,7 +527,24 @@ func main() {
 				fmt.Fprintf(w, "# cannot replay %q: %v\n", id, err)
 				continue
 			}
-			fmt.Fprintln(w, emit(id, k.C, k.Q, nil))
+			switch {
+			case k.Prev != nil:
+				_, res2, ok := observeTwice(k.C, *k.Prev, k.Q)
+				fmt.Fprintln(w, emitObs(id, k, res2, ok, nil))
+			case k.Conc != nil:
+				qs := append([]reqT{k.Q}, k.Conc...)
+				set := observeConcurrent(k.C, qs, 3000)[0]
+				keys := make([]string, 0, len(set))
+				for x := range set {
+					keys = append(keys, x)
+				}
+				sort.Strings(keys)
+				for j, x := range keys {
+					fmt.Fprintln(w, emitObs(fmt.Sprintf("%s.%d", id, j), k, x, x != "\x00P", nil))
+				}
+			default:
+				fmt.Fprintln(w, emit(id, k.C, k.Q, nil))
+			}
 		}
 	}
 }
